@@ -40,16 +40,30 @@ def _install_wrappers():
         self.parameters.max_time_in_seconds = 600.0
         cap = _state["capture"]
         if cap is not None:
-            cap.append(model.Proto().SerializeToString() if hasattr(model.Proto(), "SerializeToString") else bytes(model.Proto()))
+            eng = _state.get("cur_engine")
+            from .cpsat2smt import proto_to_dict
+
+            info = {"proto": proto_to_dict(model.Proto()), "solve": n, "strategy": _state.get("cur_strategy")}
+            if eng is not None:
+                info["entities"] = {
+                    eid: {"type": pl.entity_type, "footprint": list(eng.footprints.get(eid, (1, 1))), "fixed": list(eng.fixed_positions[eid]) if eid in eng.fixed_positions else None,
+                          "user": bool(pl.properties.get("user_specified_position")), "pos": list(pl.position) if pl.position is not None else None, "role": pl.role}
+                    for eid, pl in eng.entity_placements.items() if eid in eng.footprints
+                }
+                info["connections"] = [list(c) for c in getattr(eng, "connections", [])]
+            cap.append(info)
         stub = _state["stub"]
         if stub:
             if stub.get("unknown_first", 0) >= n:
-                # a legal CP-SAT outcome: no solution found within the time limit
-                self.parameters.max_deterministic_time = 0.0
-                self.parameters.max_time_in_seconds = 1e-9
-                self.parameters.stop_after_presolve = True if hasattr(self.parameters, "stop_after_presolve") else False
+                # a legal CP-SAT outcome under a (vanishing) time budget: the search is not started, status UNKNOWN
+                self.parameters.stop_after_presolve = True
+                self.parameters.cp_model_presolve = False
+                self.parameters.max_time_in_seconds = 0.001
+                st = orig(self, model, solution_callback)
+                _state.setdefault("stub_status", []).append(int(st))
+                return st
             pin = stub.get("pin")
-            if pin and stub.get("pin_solve", n) == n:
+            if pin and (stub.get("pin_all") or stub.get("pin_solve", n) == n):
                 proto = model.Proto()
                 byname = {}
                 for i, v in enumerate(proto.variables):
@@ -62,6 +76,21 @@ def _install_wrappers():
 
     cp_model.CpSolver.solve = solve
     cp_model.CpSolver.Solve = solve
+    try:
+        from dsl_compiler.src.layout import integer_layout_solver as ils
+
+        orig_sws = ils.IntegerLayoutEngine._solve_with_strategy
+
+        def _solve_with_strategy(self, strategy, *a, **kw):
+            _state["cur_engine"], _state["cur_strategy"] = self, strategy.get("name")
+            try:
+                return orig_sws(self, strategy, *a, **kw)
+            finally:
+                _state["cur_engine"] = None
+
+        ils.IntegerLayoutEngine._solve_with_strategy = _solve_with_strategy
+    except Exception:  # noqa: BLE001
+        pass
     _state["installed"] = True
 
 
@@ -149,9 +178,12 @@ class Compiler:
     replaced when a task exceeds `task_timeout` seconds or the process dies; such a task is reported
     as a worker failure (never as a pass)."""
 
-    def __init__(self, workers=None, seed=0, task_timeout=900, recycle=40):
+    def __init__(self, workers=None, seed=0, task_timeout=900, recycle=int(os.environ.get("VERIF_RECYCLE", "1"))):
         import multiprocessing as mp
 
+        # one fixed interpreter configuration for all workers (spawned processes read it at start-up): makes
+        # placements, relay counts and solver models reproducible from run to run
+        os.environ["PYTHONHASHSEED"] = "0"
         self.ctx = mp.get_context("spawn")
         self.n = workers or min(16, os.cpu_count() or 4)
         self.seed = seed
